@@ -348,3 +348,116 @@ Definition chk_tflight (c : tfcase) : bool :=
   && forallb (fun o => match tfind (fst o) out with Some a => option_eqb Nat.eqb (tanswer_id a) (snd o) | None => false end) obs
   (* ... and, independently of the machine, the answer of that request alone *)
   && forallb (fun o => match nth_error reqs (fst o) with Some r => option_eqb Nat.eqb (tanswer_id (tanswer1 P r)) (snd o) | None => false end) obs.
+
+(* ================================================================== WHERE THE HANDLER KEYS COME FROM
+   A provider instance gets the key of each opaque class handler (DefaultToken) and of its session manager either
+   from the deployment (token_handler_args ... kwargs.crypt_conf with a key, or a password AND a salt; session_params
+   encrypter likewise) or the LIBRARY generates it: the documented set-up `"code": {"lifetime": 600}`, `kwargs: {}`,
+   a crypt_conf that names only the class / only a password / key_defs without a key file, DefaultToken built with no
+   crypt configuration (init_encrypter(None) -> default_crypt_config() -> os.urandom), session_params without
+   encrypter.  A generated key is a DRAW from the process's random source: `sup d` is the key material of the d-th
+   draw; building an instance consumes one draw per generated key, and so does every other library call that builds an
+   encrypter in between (other servers, cookie handlers, DefaultToken objects).  A key derived from a given password
+   and a generated salt counts as one generated key.  JWT class handlers sign with a key of the provider's key jar,
+   which the deployment supplies (a key file).  No proofs here; tied to the code by harness/drv_C04.py (key material
+   read off really built handlers: chk_ifresh; who accepts whose tokens: chk_icross). *)
+Inductive ksrc := KsGiven (k : nat) | KsGen.
+Inductive hsrc := HsOpaque (s : ksrc) | HsJwt (k : nat).
+Record ispec := mk_ispec { is_code : hsrc; is_access : hsrc; is_refresh : hsrc; is_idt : nat; is_sm : ksrc }.
+(* an instance: its handlers, and the key of its session manager (session ids inside tokens are encrypted with it) *)
+Record inst := mk_inst { in_cfg : hconf; in_sm : nat }.
+(* one step of a process's history: a provider instance is built | something else draws m times *)
+Inductive istep := IInst (s : ispec) | IOther (m : nat).
+
+Section IBuild.
+  Variable sup : nat -> nat.
+  Definition ktake (s : ksrc) (n : nat) : nat * nat :=
+    match s with KsGiven k => (k, n) | KsGen => (sup n, S n) end.
+  Definition htake (s : hsrc) (n : nat) : hspec * nat :=
+    match s with HsOpaque ks => (HOpaque (fst (ktake ks n)), snd (ktake ks n)) | HsJwt k => (HJwt k, n) end.
+  (* the instance built when n draws have been made, and the number of draws made afterwards
+     (SessionManager.__init__: the token handlers code, token, refresh in this order, then the database encrypter) *)
+  Definition iconstruct (s : ispec) (n : nat) : inst * nat :=
+    let '(hc, n1) := htake (is_code s) n in
+    let '(ha, n2) := htake (is_access s) n1 in
+    let '(hr, n3) := htake (is_refresh s) n2 in
+    let '(km, n4) := ktake (is_sm s) n3 in
+    (mk_inst (mkHconf hc ha hr (is_idt s)) km, n4).
+  Fixpoint ibuild_all (l : list istep) (n : nat) : list inst :=
+    match l with
+    | [] => []
+    | IInst s :: r => let '(i, n') := iconstruct s n in i :: ibuild_all r n'
+    | IOther m :: r => ibuild_all r (n + m)
+    end.
+End IBuild.
+
+(* a value whose plaintext is that of t, encrypted anew under key k (what the holder of k makes of a plaintext) *)
+Definition reencrypt (k : nat) (nonce : pystr) (t : term) : term :=
+  match t with AEnc _ _ m => AEnc k nonce m | _ => t end.
+
+(* correspondence 1 (freshness): the key material observed on the real handlers and session managers of a history.
+   The driver numbers raw key BYTES (equal bytes <=> equal number; harness-given keys carry the number the
+   specification names, all below gen_base).  The model builds the same history from a supply of pairwise different
+   draws; both must show the same shape and the same equalities between all key slots of all instances, and given
+   keys must be the keys in use. *)
+Definition gen_base : nat := 1000%nat.
+Definition sup0 (d : nat) : nat := (gen_base + d)%nat.
+Definition hkey (h : hspec) : option nat := match h with HOpaque k => Some k | HJwt _ => None end.
+Definition ikeys (i : inst) : list (option nat) :=
+  [hkey (h_code (in_cfg i)); hkey (h_access (in_cfg i)); hkey (h_refresh (in_cfg i)); Some (in_sm i)].
+Definition okey_eqb (a b : option nat) : bool :=
+  match a, b with Some x, Some y => Nat.eqb x y | _, _ => false end.
+Definition same_shape (a b : option nat) : bool :=
+  match a, b with None, None | Some _, Some _ => true | _, _ => false end.
+Definition given_kept (p : option nat * option nat) : bool :=
+  match p with
+  | (Some m, Some o) => if (m <? gen_base)%nat then Nat.eqb m o else true
+  | _ => true
+  end.
+Definition ifresh_case : Type := (list istep * list (list (option nat)))%type.
+Definition ifresh_model (c : ifresh_case) : list (option nat) := flat_map ikeys (ibuild_all sup0 (fst c) 0).
+Definition chk_ifresh (c : ifresh_case) : bool :=
+  let m := ifresh_model c in
+  let o := concat (snd c) in
+  Nat.eqb (length m) (length o) &&
+  let z := combine m o in
+  forallb (fun p => same_shape (fst p) (snd p)) z && forallb given_kept z &&
+  forallb (fun p => forallb (fun q => Bool.eqb (okey_eqb (fst p) (fst q)) (okey_eqb (snd p) (snd q))) z) z.
+
+(* correspondence 2 (who accepts whose tokens): instance i of the history mints a token of class m for one of its
+   sessions; it is offered as it is, or with its plaintext encrypted anew under key slot q (0-2: the class handlers,
+   3: the session manager) of instance i', to instance j: at the slot's handler (sm = false: handler.info /
+   TokenHandler.info) or at the session manager (sm = true: get_session_info_by_token; also what the endpoints
+   answer).  observed: accepted or not.  An instance's database holds its own sessions only. *)
+Definition isid (i : nat) : pystr := PS "sid-" ++ [N.of_nat (48 + i)].
+Definition no_inst : inst := mk_inst (mkHconf (HJwt 0) (HJwt 0) (HJwt 0) 0) 0.
+Definition icross_case : Type := (list istep * nat * nat * nat * option (nat * nat) * nat * bool * bool)%type.
+Definition icross_token (c : icross_case) : term :=
+  let '(steps, i, j, m, re, s, sm, _) := c in
+  let is_ := ibuild_all sup0 steps 0 in
+  let t := mint (in_cfg (nth i is_ no_inst)) (MTok (tk_of m)) (PS "n") (PS "rnd") (isid i) (PS "99") in
+  match re with
+  | Some (i', q) => match nth q (ikeys (nth i' is_ no_inst)) None with Some k => reencrypt k (PS "n2") t | None => t end
+  | None => t
+  end.
+Definition icross_accepts (cfg : hconf) (j : nat) (t : term) (s : nat) (sm : bool) : bool :=
+  if sm then match slot_client cfg (fun _ => false) [(isid j, PS "client")] (slot_of s) t with Some _ => true | None => false end
+  else match slot_resolve cfg (fun _ => false) (slot_of s) t with TOk (Some _) => true | _ => false end.
+Definition icross_model (c : icross_case) : bool :=
+  let '(steps, i, j, m, re, s, sm, _) := c in
+  icross_accepts (in_cfg (nth j (ibuild_all sup0 steps 0) no_inst)) j (icross_token c) s sm.
+Definition chk_icross (c : icross_case) : bool :=
+  let '(_, _, _, _, _, _, _, obs) := c in Bool.eqb (icross_model c) obs.
+(* the same for one value at all the places it is offered: the three class handlers and the class-agnostic lookup at the
+   handler, then the same four at the session manager (bare handlers: the first four only) *)
+Definition igroup_slots : list (nat * bool) :=
+  [(0, false); (1, false); (2, false); (4, false); (0, true); (1, true); (2, true); (4, true)]%nat.
+Definition igroup_case : Type := (list istep * nat * nat * nat * option (nat * nat) * list bool)%type.
+Definition igroup_model (c : igroup_case) : list bool :=
+  let '(steps, i, j, m, re, _) := c in
+  let cfg := in_cfg (nth j (ibuild_all sup0 steps 0) no_inst) in
+  let t := icross_token (steps, i, j, m, re, 0, false, false)%nat in
+  map (fun p => icross_accepts cfg j t (fst p) (snd p)) igroup_slots.
+Definition chk_igroup (c : igroup_case) : bool :=
+  let '(_, _, _, _, _, obs) := c in
+  (length obs <=? 8)%nat && list_eqb Bool.eqb (firstn (length obs) (igroup_model c)) obs.
